@@ -142,6 +142,14 @@ fn attr_case(attrs: &[&AAttr], comp: bool, transform_on: bool, merge_props: bool
     case.extra = json!({"env": env_json(), "kind": "attrs", "comp": comp, "attrs": meta});
     case.nontrivial = attrs.iter().any(|a| a.dynamic || a.needs_full);
     case.label(if comp { "host=component" } else { "host=element" });
+    case.label(format!("attrs={}", attrs.len()));
+    case.label(format!("transformOn={transform_on} mergeProps={merge_props}"));
+    for a in attrs {
+        match a.name {
+            Some(n) => case.label(format!("attr={n}:{}", if a.dynamic { "dynamic" } else { "constant" })),
+            None => case.label(format!("attr={}", a.jsx)),
+        }
+    }
     case
 }
 
